@@ -45,3 +45,55 @@ def build(which=None):
     only = os.environ.get("PYVC_ONLY")
     idx = [i for i, t in enumerate(plan(which)) if not only or only in t[0].qual]
     return discharge.run_tasks([("props.method_common", "build_one", (i, which)) for i in idx])
+
+
+# ----------------------------------------------------------------------------- per-property drivers
+from pyvc import runner
+
+ASSUME_COMMON = [
+    sc.ASSUME_PY,
+    "T3: floats are reals; +-inf are two constants; 'no float overflow' is assumed where a contract says so "
+    "(CalculateGlobalR: a characteristic computed from finite operands is finite)",
+    "INTERFACE contract of the user's objective (hypothesis of the properties, T5): Problem.Calculate returns a value holder "
+    "(the supplied one or a new object) whose value is a function objf(problem, point contents) of the point, writes nothing "
+    "but the supplied holder, terminates or raises any BaseException",
+    "INTERFACE contract of listener callbacks (T5): a callback writes nothing reachable from the solver",
+    "Evolvent.GetImage is used through an abstract of its contract verified under C07/C17 (fresh result, only the scratch "
+    "vector written, result = imgv(evolvent, x), a function of x and the configuration); copy.deepcopy of a fresh item and "
+    "depq.DEPQ are behind ASSUMED contracts (T6)",
+    "configuration: one objective, no constraints (the only kind Method evaluates); dimension N >= 1 symbolic, "
+    "pow(d, 1/N) and pow(a, N) are the uninterpreted hroot / rpow with their defining axioms (root positive, "
+    "rpow(hroot(d,N),N) = d, rpow monotone); r > 1; evolvent configuration never changed after construction",
+    "history quantifier ('after any number of iterations', 'at every moment'): INV is an object invariant established by "
+    "FirstIteration and preserved by the iteration body, by DoGlobalIteration and by Solve - induction over the history is "
+    "the modular-verification meta-theorem, not a per-run obligation",
+]
+
+
+def run_check(pid, tier, seed, which, oracle_mode, extra_assumptions=(), post=None):
+    chk = runner.Check(pid, tier, seed)
+    reps = build(which)
+    verify.finish_reports(reps)
+    for rep in reps:
+        chk.add_report(rep)
+    chk.inlined |= {"SearchDataItem one-line accessors (GetX/GetZ/GetIndex/GetLeft/GetRight/Set*)", "Method.min_delta property"}
+    chk.assumptions += ASSUME_COMMON + list(extra_assumptions)
+    if post:
+        post(chk)
+    cache = {}
+
+    def oracle(item):
+        if "r" not in cache:
+            cache["r"] = runner.native("native/method_oracle.py", {"mode": oracle_mode, "seed": seed}, timeout=1500)
+        r = cache["r"]
+        return r["failures"][0] if r["failures"] else None
+    return chk.finish(oracle=oracle)
+
+
+def replay_generic(path, oracle_mode):
+    import json
+    doc = json.load(open(path))
+    print(json.dumps(doc.get("failing_input") or doc.get("counter_model"), indent=1)[:3000])
+    res = runner.native("native/method_oracle.py", {"mode": oracle_mode, "seed": 0}, timeout=1500)
+    print(json.dumps(res, indent=1)[:3000])
+    return 1 if res["failures"] or not doc.get("failing_input") else 0
